@@ -745,6 +745,10 @@ impl Formattable for &Vec<ArgItem<Identifier>> {
 impl Formattable for &Vec<ArgItem<SpecificImportArg>> {
     fn format(&self, formatter: &mut CodeFormatter) {
         for (path, comma) in *self {
+            // Comments in front of an argument belong to the argument as a whole
+            if let Some(t) = path.trivia.as_ref() {
+                formatter.fmt(&t.data);
+            }
             formatter
                 .fmt(&path.data.path)
                 .spc_if_next()
